@@ -383,6 +383,9 @@ def shards(tier, seed=1):
     for i, g in enumerate(rot(groups, seed + 1, 2) if q else groups):
         out.append({"check": "history", "fams": g, "fmm": True, "ops": rot(allops, seed + i + 1, 2) if q else allops,
                     "pairs": rot(allpairs, seed + i + 1, 2) if q else allpairs, "single": not q, "examples": 120 * n, "budget_s": 300 * n})
+    # the four Helmholtz constructors delegate purely imaginary wavenumbers to the modified Helmholtz ones (a dispatch branch each)
+    out.append({"check": "history", "fams": ["helmholtz"], "fmm": False, "ops": allops, "pairs": [["P1", "P1"]], "single": False, "imag_k": True,
+                "examples": 40 * n, "budget_s": 200 * n})
     return out
 
 
@@ -412,7 +415,7 @@ def strategy(spec):
                 return d
             d["opn"] = draw(st.sampled_from(spec.get("ops", ["V", "K", "Kp", "W"])))
             d["spaces"] = ["P1", "P1"] if d["opn"] == "W" else list(draw(st.sampled_from(pairs)))
-            d["k"] = None if fam == "laplace" else ([1.2, 0] if fam == "modified" else draw(st.sampled_from([[1.0, 0], [1.5, 0.5], [0, 1.3]])))
+            d["k"] = None if fam == "laplace" else ([1.2, 0] if fam == "modified" else draw(st.sampled_from([[0, 1.3]] if spec.get("imag_k") else [[1.0, 0], [1.5, 0.5], [0, 1.3]])))
             d["assembler"] = draw(st.sampled_from(["dense", "fmm", "fmm"])) if use_fmm else "dense"
             if d["assembler"] == "dense":
                 d["precision"] = draw(st.sampled_from([None, None, "single"] if spec.get("single", True) else [None]))
